@@ -51,9 +51,7 @@ EXCLUSIONS = [
     ('MySQLHandshakeSslRequest', 'capabilities=set:all', 'layout switch'),
     ('MySQLHandshakeSslRequest', 'character_set=*', 'present exactly when CLIENT_PROTOCOL_41 is set'),
     ('MySQLHandshake*', 'capabilities=set:only:*', 'drops the capability that selects the layout'),
-    ('TlsExtensionPadding', 'length=int:2^24*', 'RFC 7685: the padding fits the 2-byte extension length'),
-    ('TlsExtensionPadding', 'length=int:2^32*', 'RFC 7685: the padding fits the 2-byte extension length'),
-    ('TlsExtensionPadding', 'length=int:2^64*', 'RFC 7685: the padding fits the 2-byte extension length'),
+    ('TlsExtensionPadding', 'length=int:0x*', 'RFC 7685: the padding fits the 2-byte extension length (< 2^16)'),
     # --- TLS ---------------------------------------------------------------------------------------------
     ('TlsExtensionServerName*', 'host_name=str:empty', 'RFC 6066 s3: HostName is 1..2^16-1 bytes'),
     ('TlsExtensionServerName*', 'host_name=str:len25?', 'RFC 1035: labels are at most 63 octets'),
